@@ -1,6 +1,35 @@
 //@@ unit props=C15,C14,C06
 // Unit xlsxfml: the formula stream of an xlsx worksheet -- XlsxCellReader::next_formula and read_formula (src/xlsx/cells_reader.rs),
 // verbatim text, against the GHOST MODEL of quick-xml of unit xlsxxml (assumption A-xml of DESIGN.md section 5; copied, same text).
+//
+// Specification (ECMA-376 18.3.1.40 f / 18.3.1.4 c / 18.3.1.73 row, and the text of property C15), over the event sequence:
+//   txt_scan      character data of a text-only element (formula text of `f`): Text unescaped, CDATA literal, comments skipped
+//   rect_map      THE offset map of a master at cell `pos` with declared range d: every cell m of the rectangle d (one or two
+//                 dimensions) |-> (m.row - pos.row, m.col - pos.col), nothing else (the master need not be the first cell of d)
+//   f_effect      what one `f` element reports and does to the group table: master (t=shared, si=K, ref=R, text) reports its text and
+//                 registers (text, rect_map(R, pos)) under index K, other indices untouched; member (t=shared, si=K, no ref) at a
+//                 cell of the group's map reports translate(master text, map[cell]); cells outside / unknown groups / non-shared keep
+//                 their own text
+//   fcell_scan    content of a `c` element (f?, v?, is?), fnext_scan: the next formula cell of sheetData: position = `r` attribute else
+//                 the running cursor, cursor rules as for next_cell; a cell without `f` reports the empty string
+// Under contract (real text): read_formula (C14.formula_text_from_f, value_elements_carry_no_formula, unknown_cell_child_rejected,
+//   reader frame; C14.formula_cdata_text FAILS: registered finding), XlsxCellReader::next_formula (entry; C14.formula_cell_position,
+//   C14,C15.formula_cell_text, C14.formula_cursor_update, C15.shared_group_table, C14.formula_end_of_sheet_data, C15.group_table_invariant_kept,
+//   labelled assertions offset_map_only_rectangle / offset_map_covers_rectangle / master_stored_under_its_shared_index and the loop
+//   invariants C15.offset_map_*; all implicit obligations -> C06, plus two allocation-proportion assertions that FAIL: registered),
+//   get_attribute, get_row_column, get_row, Cell::new (re-verified here on the same text as in unit xlsxxml).
+// TRUSTED (all marked): the quick-xml model (A-xml), byte-literal contents, get_row_and_optional_column (proved in unit a1),
+//   get_dimension (external_body, `dim_of`), replace_cell_names = uninterpreted `translate` with the precondition of unit shared,
+//   atoi_simd::parse uninterpreted, Borrow::borrow, String::default, hashing of (u32, u32) keys (obeys_key_model).
+// `requires old(self).wf()` on the entry function next_formula is the representation invariant of the PRIVATE group table (every stored
+//   offset is a difference of two u32 coordinates; needed for the precondition of replace_cell_names): it holds for the empty table
+//   XlsxCellReader::new creates (witness_new_wf) and is re-established by every call (C15.group_table_invariant_kept).
+// Reversed corners (ref="C2:C1", accepted by get_dimension): the two `a..=b` loops are empty; vstd's model of RangeInclusive does not say so
+//   for a > b, so the rectangle assertions carry the antecedent `ord` (corners in order) -- nothing is claimed about the map then, only
+//   that every stored offset is small; `dim_of` (ST_Ref) rejects such refs, so the functional clauses are unaffected.
+// Declared rewrites: byte-string literal patterns -> binding + guard (read_formula arms; `if let Ok(Some(b"shared")) = X {` ->
+//   `if (match X { Ok(Some(__t)) => __t == b"shared", _ => false }) {`).
+// Genuine findings: findings/xlsxfml.json (demonstrations findings/xlsxfml_1.rs, _2.rs); repaired ones under "fixed" (fixes/xlsxfml_1/2.diff).
 #![allow(unused_imports, dead_code, unused_variables, unused_mut, unused_assignments)]
 use vstd::prelude::*;
 use std::borrow::Cow;
@@ -669,6 +698,52 @@ pub open spec fn offset_map_only_rectangle(mp: Map<(u32, u32), (i64, i64)>, d: D
 pub open spec fn master_stored_under_its_shared_index(after: Groups, before: Groups, k: int, v: GroupV) -> bool {
     after =~= groups_put(before, k, v)
 }
+
+/// progress of the two nested loops that fill the offset map: exactly the cells of the rectangle d that precede (row, col) in row-major
+/// order are in the map, each with its offset from the master (opaque: the loop invariants carry it as one fact, the lemmas below unfold it)
+#[verifier::opaque]
+pub open spec fn cells_exact(mp: Map<(u32, u32), (i64, i64)>, d: Dimensions, master: (u32, u32), row: int, col: int) -> bool {
+    &&& forall|m: (u32, u32)| #[trigger] mp.contains_key(m) ==> in_rect(d, m) && (m.0 < row || (m.0 == row && m.1 < col)) && mp[m] == off_of(master, m)
+    &&& forall|m: (u32, u32)| in_rect(d, m) && (m.0 < row || (m.0 == row && m.1 < col)) ==> #[trigger] mp.contains_key(m)
+}
+proof fn lemma_cells_start(d: Dimensions, master: (u32, u32))
+    ensures cells_exact(Map::empty(), d, master, d.start.0 as int, d.start.1 as int),
+{ reveal(cells_exact); }
+/// one `offset_map.insert((row, col), (row - master.row, col - master.col))`
+proof fn lemma_cells_insert(mp0: Map<(u32, u32), (i64, i64)>, mp1: Map<(u32, u32), (i64, i64)>, d: Dimensions, master: (u32, u32), row: u32, col: u32, v: (i64, i64))
+    requires cells_exact(mp0, d, master, row as int, col as int), in_rect(d, (row, col)), mp1 == mp0.insert((row, col), v),
+        v == ((row as i64 - master.0 as i64) as i64, (col as i64 - master.1 as i64) as i64),
+    ensures cells_exact(mp1, d, master, row as int, col + 1),
+{
+    reveal(cells_exact);
+    assert forall|m: (u32, u32)| #[trigger] mp1.contains_key(m) implies in_rect(d, m) && (m.0 < row || (m.0 == row && m.1 < col + 1)) && mp1[m] == off_of(master, m) by {
+        if m != (row, col) { assert(mp0.contains_key(m)); }
+    }
+    assert forall|m: (u32, u32)| in_rect(d, m) && (m.0 < row || (m.0 == row && m.1 < col + 1)) implies #[trigger] mp1.contains_key(m) by {
+        if m != (row, col) { assert(mp0.contains_key(m)); }
+    }
+}
+/// a row is complete: go on with the first column of the next row
+proof fn lemma_cells_next_row(mp: Map<(u32, u32), (i64, i64)>, d: Dimensions, master: (u32, u32), row: int)
+    requires cells_exact(mp, d, master, row, d.end.1 + 1),
+    ensures cells_exact(mp, d, master, row + 1, d.start.1 as int),
+{ reveal(cells_exact); }
+/// all rows are complete: the map is THE offset map of the rectangle
+proof fn lemma_cells_done(mp: Map<(u32, u32), (i64, i64)>, d: Dimensions, master: (u32, u32))
+    requires cells_exact(mp, d, master, d.end.0 + 1, d.start.1 as int),
+    ensures offset_map_covers_rectangle(mp, d, master), offset_map_only_rectangle(mp, d), is_rect_map(mp, d, master),
+{
+    reveal(cells_exact);
+    assert forall|m: (u32, u32)| in_rect(d, m) implies #[trigger] mp.contains_key(m) && mp[m] == off_of(master, m) by {
+        assert(m.0 < d.end.0 + 1);
+        assert(mp.contains_key(m));
+    }
+    assert forall|m: (u32, u32)| #[trigger] mp.contains_key(m) implies in_rect(d, m) by {}
+}
+proof fn lemma_cells_small(mp: Map<(u32, u32), (i64, i64)>, d: Dimensions, master: (u32, u32), row: int, col: int)
+    requires cells_exact(mp, d, master, row, col),
+    ensures forall|m: (u32, u32)| #[trigger] mp.contains_key(m) ==> offset_small(mp[m]),
+{ reveal(cells_exact); }
 /// C06 "memory in proportion to the input": `n` entries are allocated while reading a part of `input_events` XML events
 pub open spec fn alloc_in_proportion(n: int, input_events: int) -> bool { n <= input_events }
 /// number of cells of the rectangle d
@@ -1018,26 +1093,42 @@ if (match \g<1> { Ok(Some(__t)) => __t == b"shared", _ => false }) {
                                                 invariant
                                                     vstd::std_specs::hash::obeys_key_model::<(u32, u32)>(),
                                                     ord == (reference.start.0 <= reference.end.0 && reference.start.1 <= reference.end.1),
+                                                    //# C15.offset_map_loops_span_the_rows_of_the_range
                                                     // (vstd's model of `a..=b`: a + k for k = 0 ..= b - a when a <= b)
                                                     ord ==> it2.seq().len() == reference.end.0 - reference.start.0 + 1,
                                                     ord ==> forall|k: int| 0 <= k < it2.seq().len() ==> it2.seq()[k] == reference.start.0 + k,
+                                                    //# C15.offsets_are_coordinate_differences
                                                     forall|m: (u32, u32)| #[trigger] offset_map@.contains_key(m) ==> offset_small(offset_map@[m]),
-                                                    // rows done so far are complete, nothing else is in the map
-                                                    ord ==> forall|m: (u32, u32)| #[trigger] offset_map@.contains_key(m) ==>
-                                                        in_rect(reference, m) && m.0 < reference.start.0 + it2.index@ && offset_map@[m] == off_of(pos, m),
-                                                    ord ==> forall|m: (u32, u32)| in_rect(reference, m) && m.0 < reference.start.0 + it2.index@ ==> #[trigger] offset_map@.contains_key(m),
+                                                    //# C15.offset_map_rows_done_exact
+                                                    // the rows done so far are complete, nothing else is in the map
+                                                    ord ==> cells_exact(offset_map@, reference, pos, reference.start.0 + it2.index@, reference.start.1 as int),
 //@@ loop 3 it3
                                                     invariant
                                                         vstd::std_specs::hash::obeys_key_model::<(u32, u32)>(),
                                                         ord == (reference.start.0 <= reference.end.0 && reference.start.1 <= reference.end.1),
                                                         ord ==> reference.start.0 <= row <= reference.end.0 && row == reference.start.0 + it2.index@,
+                                                        //# C15.offset_map_loops_span_the_columns_of_the_range
                                                         ord ==> it3.seq().len() == reference.end.1 - reference.start.1 + 1,
                                                         ord ==> forall|k: int| 0 <= k < it3.seq().len() ==> it3.seq()[k] == reference.start.1 + k,
+                                                        //# C15.offsets_are_coordinate_differences
                                                         forall|m: (u32, u32)| #[trigger] offset_map@.contains_key(m) ==> offset_small(offset_map@[m]),
-                                                        ord ==> forall|m: (u32, u32)| #[trigger] offset_map@.contains_key(m) ==>
-                                                            in_rect(reference, m) && (m.0 < row || (m.0 == row && m.1 < reference.start.1 + it3.index@)) && offset_map@[m] == off_of(pos, m),
-                                                        ord ==> forall|m: (u32, u32)| in_rect(reference, m) && (m.0 < row || (m.0 == row && m.1 < reference.start.1 + it3.index@)) ==> #[trigger] offset_map@.contains_key(m),
+                                                        //# C15.offset_map_cells_done_exact
+                                                        ord ==> cells_exact(offset_map@, reference, pos, row as int, reference.start.1 + it3.index@),
+//@@ before /offset_map\.insert\(/
+                                                    let ghost mp0 = offset_map@;
+//@@ after /offset_map\.insert\([^;]*;/
+                                                    proof {
+                                                        if ord {
+                                                            lemma_cells_insert(mp0, offset_map@, reference, pos, row, col,
+                                                                ((row as i64 - pos.0 as i64) as i64, (col as i64 - pos.1 as i64) as i64));
+                                                        }
+                                                    }
+//@@ after /offset_map\.insert\([^;]*;\s*\}/
+                                                proof { if ord { lemma_cells_next_row(offset_map@, reference, pos, row as int); } }
+//@@ before /for row in /
+                                            proof { if ord { lemma_cells_start(reference, pos); } }
 //@@ before /if let Some\(f\) = formula\.borrow\(\)/#1of2
+                                            proof { if ord { lemma_cells_done(offset_map@, reference, pos); } }
                                             //# C15.offset_map_only_rectangle
                                             assert(ord ==> offset_map_only_rectangle(offset_map@, reference));
                                             //# C15.offset_map_covers_rectangle
@@ -1083,7 +1174,7 @@ if (match \g<1> { Ok(Some(__t)) => __t == b"shared", _ => false }) {
                                                 }
                                                 //# C15.master_stored_under_its_shared_index
                                                 assert(good ==> master_stored_under_its_shared_index(gseq(self.formulas@), gi, kidx, gv));
-//@@ after /value = formula;/
+//@@ after? /value = formula;/
                                             proof {
                                                 if good {
                                                     assert(f_effect(ce.attrs, tx.text, pos, gi) == Some((tx.text, groups_put(gi, kidx, GroupV { text: tx.text, map: rect_map(reference, pos) }))));
@@ -1106,6 +1197,99 @@ if (match \g<1> { Ok(Some(__t)) => __t == b"shared", _ => false }) {
                                 }
 //@@ end
 //@@ endimpl
+
+// ---- witnesses / sanity of the specification (the antecedents of the clauses are satisfiable and the oracle gives the expected answers)
+pub open spec fn w_attr(k: Seq<u8>, v: Seq<u8>) -> Attr { Attr { key: k, raw: v, val: Seq::empty(), val_ok: true, err: false } }
+pub open spec fn w_dim() -> Dimensions { Dimensions { start: (0u32, 2u32), end: (1u32, 3u32) } }
+/// the offset map of the block C1:D2 with master C1 is {C1 -> (0,0), D1 -> (0,1), C2 -> (1,0), D2 -> (1,1)}
+proof fn witness_rect_map()
+    ensures ({ let mp = rect_map(w_dim(), (0u32, 2u32));
+               mp.contains_key((1u32, 3u32)) && mp[(1u32, 3u32)] == (1i64, 1i64) && mp[(0u32, 3u32)] == (0i64, 1i64) && !mp.contains_key((2u32, 2u32)) }),
+{
+    let mp = Map::<(u32, u32), (i64, i64)>::empty().insert((0u32, 2u32), (0i64, 0i64)).insert((0u32, 3u32), (0i64, 1i64))
+        .insert((1u32, 2u32), (1i64, 0i64)).insert((1u32, 3u32), (1i64, 1i64));
+    assert forall|m: (u32, u32)| in_rect(w_dim(), m) implies #[trigger] mp.contains_key(m) && mp[m] == off_of((0u32, 2u32), m) by {
+        assert(m == (0u32, 2u32) || m == (0u32, 3u32) || m == (1u32, 2u32) || m == (1u32, 3u32));
+    }
+    assert(is_rect_map(mp, w_dim(), (0u32, 2u32)));
+    lemma_rect_map_unique(mp, w_dim(), (0u32, 2u32));
+}
+/// <c r="C1"><f t="shared" si="0" ref="C1:D2">A1</f></c> read with an empty group table: the cell C1 reports "A1" and group 0 is
+/// registered with the offsets of the whole block
+proof fn witness_master()
+    requires atoi_usize(seq![0x30u8]) == Some(0usize),
+    ensures ({
+        let fa = seq![w_attr(n_t(), n_shared()), w_attr(n_si(), seq![0x30u8]), w_attr(n_ref(), seq![0x43u8, 0x31u8, 0x3au8, 0x44u8, 0x32u8])];
+        let ev = seq![Ev { attrs: seq![w_attr(n_r(), seq![0x43u8, 0x31u8])], ..ev_start(n_c()) }, Ev { attrs: fa, ..ev_start(n_f()) },
+                      ev_text("A1"@), ev_end(n_f()), ev_end(n_c())];
+        let nx = fnext_scan(ev, 0, Cur { row: 0, col: 0 }, Seq::empty());
+        nx.ok && nx.cell == Some(((0u32, 2u32), "A1"@)) && nx.cur == (Cur { row: 0, col: 3 }) && nx.end == 4 && no_cdata(ev, 0, nx.end)
+            && nx.groups == seq![Some(GroupV { text: "A1"@, map: rect_map(w_dim(), (0u32, 2u32)) })] }),
+{
+    let rr = seq![0x43u8, 0x31u8, 0x3au8, 0x44u8, 0x32u8];
+    let fa = seq![w_attr(n_t(), n_shared()), w_attr(n_si(), seq![0x30u8]), w_attr(n_ref(), rr)];
+    let ca = seq![w_attr(n_r(), seq![0x43u8, 0x31u8])];
+    let ev = seq![Ev { attrs: ca, ..ev_start(n_c()) }, Ev { attrs: fa, ..ev_start(n_f()) }, ev_text("A1"@), ev_end(n_f()), ev_end(n_c())];
+    lemma_local_no_colon(n_c(), 0); lemma_local_no_colon(n_f(), 0);
+    assert(n_c()[0] != n_f()[0] && n_c()[0] != n_v()[0] && n_c().len() != n_is().len() && n_c().len() != n_row().len());
+    assert(n_f()[0] != n_v()[0] && n_f().len() != n_is().len());
+    assert(n_t()[0] != n_r()[0] && n_t().len() != n_si().len() && n_t().len() != n_ref().len() && n_si().len() != n_ref().len());
+    lemma_cell_2(0x43u8, 0x31u8); lemma_cell_2(0x44u8, 0x32u8);
+    // attributes
+    assert(attr_scan(ca, n_r()) == AttrLookup::Found(seq![0x43u8, 0x31u8])) by { reveal_with_fuel(attr_scan, 2); }
+    assert(fa.skip(1) =~= seq![w_attr(n_si(), seq![0x30u8]), w_attr(n_ref(), rr)]);
+    assert(fa.skip(1).skip(1) =~= seq![w_attr(n_ref(), rr)]);
+    assert(attr_scan(fa, n_t()) == AttrLookup::Found(n_shared())) by { reveal_with_fuel(attr_scan, 2); }
+    assert(attr_scan(fa, n_si()) == AttrLookup::Found(seq![0x30u8])) by { reveal_with_fuel(attr_scan, 3); }
+    assert(attr_scan(fa, n_ref()) == AttrLookup::Found(rr)) by { reveal_with_fuel(attr_scan, 4); }
+    // ref="C1:D2"
+    reveal_with_fuel(colon_at, 4);
+    assert(colon_at(rr, 0) == 2);
+    assert(rr.subrange(0, 2) =~= seq![0x43u8, 0x31u8]);
+    assert(rr.subrange(3, 5) =~= seq![0x44u8, 0x32u8]);
+    assert(dim_of(rr) == Some(w_dim()));
+    // the text of f
+    assert(Seq::<char>::empty() + "A1"@ =~= "A1"@);
+    assert(txt_scan(ev, 2, n_f(), Seq::empty()) == (TxtRes { ok: true, text: "A1"@, end: 3 })) by { reveal_with_fuel(txt_scan, 3); }
+    let gv = GroupV { text: "A1"@, map: rect_map(w_dim(), (0u32, 2u32)) };
+    let g1 = groups_put(Seq::empty(), 0, gv);
+    assert(g1 =~= seq![Some(gv)]);
+    assert(f_effect(fa, "A1"@, (0u32, 2u32), Seq::empty()) == Some(("A1"@, g1)));
+    assert(fcell_scan(ev, 1, (0u32, 2u32), None, false, Seq::empty()) == (FCellRes { ok: true, val: Some("A1"@), groups: g1, end: 4 })) by { reveal_with_fuel(fcell_scan, 3); }
+    reveal_with_fuel(fnext_scan, 2);
+}
+/// <c r="D2"><f t="shared" si="0"/></c> read after that master: D2 reports the master text translated by (1, 1); the table is unchanged
+proof fn witness_member(t: Seq<char>)
+    requires atoi_usize(seq![0x30u8]) == Some(0usize), translate(t, (1i64, 1i64)) is Some,
+    ensures ({
+        let fa = seq![w_attr(n_t(), n_shared()), w_attr(n_si(), seq![0x30u8])];
+        let ev = seq![Ev { attrs: seq![w_attr(n_r(), seq![0x44u8, 0x32u8])], ..ev_start(n_c()) }, Ev { attrs: fa, ..ev_start(n_f()) }, ev_end(n_f()), ev_end(n_c())];
+        let g = seq![Some(GroupV { text: t, map: rect_map(w_dim(), (0u32, 2u32)) })];
+        let nx = fnext_scan(ev, 0, Cur { row: 1, col: 0 }, g);
+        nx.ok && nx.cell == Some(((1u32, 3u32), translate(t, (1i64, 1i64))->Some_0)) && nx.groups == g && nx.end == 3 }),
+{
+    let fa = seq![w_attr(n_t(), n_shared()), w_attr(n_si(), seq![0x30u8])];
+    let ca = seq![w_attr(n_r(), seq![0x44u8, 0x32u8])];
+    let ev = seq![Ev { attrs: ca, ..ev_start(n_c()) }, Ev { attrs: fa, ..ev_start(n_f()) }, ev_end(n_f()), ev_end(n_c())];
+    let g = seq![Some(GroupV { text: t, map: rect_map(w_dim(), (0u32, 2u32)) })];
+    lemma_local_no_colon(n_c(), 0); lemma_local_no_colon(n_f(), 0);
+    assert(n_c()[0] != n_f()[0] && n_c()[0] != n_v()[0] && n_c().len() != n_is().len() && n_c().len() != n_row().len());
+    assert(n_f()[0] != n_v()[0] && n_f().len() != n_is().len());
+    assert(n_t()[0] != n_r()[0] && n_t().len() != n_si().len() && n_t().len() != n_ref().len() && n_si().len() != n_ref().len());
+    lemma_cell_2(0x44u8, 0x32u8);
+    witness_rect_map();
+    assert(attr_scan(ca, n_r()) == AttrLookup::Found(seq![0x44u8, 0x32u8])) by { reveal_with_fuel(attr_scan, 2); }
+    assert(fa.skip(1) =~= seq![w_attr(n_si(), seq![0x30u8])]);
+    assert(fa.skip(1).skip(1) =~= Seq::<Attr>::empty());
+    assert(attr_scan(fa, n_t()) == AttrLookup::Found(n_shared())) by { reveal_with_fuel(attr_scan, 2); }
+    assert(attr_scan(fa, n_si()) == AttrLookup::Found(seq![0x30u8])) by { reveal_with_fuel(attr_scan, 3); }
+    assert(attr_scan(fa, n_ref()) == AttrLookup::Absent) by { reveal_with_fuel(attr_scan, 4); }
+    assert(txt_scan(ev, 2, n_f(), Seq::empty()) == (TxtRes { ok: true, text: Seq::empty(), end: 2 })) by { reveal_with_fuel(txt_scan, 2); }
+    let t2 = translate(t, (1i64, 1i64))->Some_0;
+    assert(f_effect(fa, Seq::empty(), (1u32, 3u32), g) == Some((t2, g)));
+    assert(fcell_scan(ev, 1, (1u32, 3u32), None, false, g) == (FCellRes { ok: true, val: Some(t2), groups: g, end: 3 })) by { reveal_with_fuel(fcell_scan, 3); }
+    reveal_with_fuel(fnext_scan, 2);
+}
 proof fn lemma_wf_push(g: Groups, x: Option<GroupV>)
     requires groups_wf(g), x matches Some(v) ==> forall|m: (u32, u32)| #[trigger] v.map.contains_key(m) ==> offset_small(v.map[m]),
     ensures groups_wf(g.push(x)),
